@@ -95,6 +95,22 @@ static void *parr_worker(void *a_)
 
 static char **pre_v[64]; static int *pre_l[64]; static int pre_n[64];
 
+/* number of file-backed mappings of this process (memory that is neither heap nor stack: a mapping left behind by a call is invisible to
+ * the allocation accounting) */
+static int count_file_maps(void)
+{
+        FILE *f = fopen("/proc/self/maps", "r");
+        if (!f) return -1;
+        char ln[1024]; int c = 0;
+        while (fgets(ln, sizeof ln, f)) {
+                char *p = strchr(ln, '/');
+                if (p && !strstr(ln, "(deleted)")) c++;
+        }
+        fclose(f);
+        return c;
+}
+static int base_file_maps = -1;
+
 static int read_lines(const char *file, char ***out, int **lens)
 {
         FILE *f = fopen(file, "r");
@@ -126,6 +142,7 @@ int main(int argc, char **argv)
         }
         char *line = NULL; size_t bl = 0; ssize_t r;
         int opn = 0;
+        base_file_maps = count_file_maps();
         while ((r = getline(&line, &bl, sf)) != -1) {
                 char *p = line;
                 char *op = tok(&p);
@@ -279,8 +296,9 @@ int main(int argc, char **argv)
                         if (a) { for (int i = 0; i < 128; i++) printf("%s%d", i ? "," : "", a->to_internal[i]); free(a); }
                         printf("]}\n");
                 } else if (!strcmp(op, "live")) {
-                        printf("{\"op\":\"live\",\"n\":%d,\"blocks\":%ld,\"bytes\":%ld,\"total\":%ld,\"peak\":%ld,\"unknown_frees\":%ld,\"pool_hits\":%ld}\n",
-                               opn, kv_live_blocks(), kv_live_bytes(), kv_total_blocks(), kv_peak_blocks(), kv_unknown_frees(), kv_pool_hits());
+                        printf("{\"op\":\"live\",\"n\":%d,\"blocks\":%ld,\"bytes\":%ld,\"total\":%ld,\"peak\":%ld,\"unknown_frees\":%ld,\"pool_hits\":%ld,\"file_maps_extra\":%d}\n",
+                               opn, kv_live_blocks(), kv_live_bytes(), kv_total_blocks(), kv_peak_blocks(), kv_unknown_frees(), kv_pool_hits(),
+                               base_file_maps >= 0 ? count_file_maps() - base_file_maps : 0);
                 } else if (!strcmp(op, "fill")) {
                         int on = atoi(tok(&p)); int b = atoi(tok(&p));
                         kv_alloc_fill(on, b);
